@@ -1183,11 +1183,15 @@ class _CycleCell(_Cell):
        the allowed tolerance, if so note the cell as needing more evals
     """
 
-    def __init__(self, *args, **kwargs):
+    def __init__(self, address, value=None, formula='', excel=None):
         self._value = None
         self._prev_value = None
         self.wip = False
-        super().__init__(*args, **kwargs)
+        super().__init__(address, value=None, formula=formula, excel=excel)
+
+        # the initial value is not the result of a calc in this iteration
+        self._value = value
+        iterative_eval_tracker.not_calced(self)
 
     @property
     def value(self):
